@@ -720,10 +720,10 @@ class DeclGen(Gen):
                                                               type_name=T("Type", name=low(typ))))))
             else:
                 named = r.random() < 0.8
-                sz = r.choice(["X", "B", "W", "D", "L"])
+                sz = r.choice(["X", "B", "W", "D", "L", "", ""])      # no size prefix: a single bit, kept apart from X in the tree
                 addr = ".".join(str(r.randrange(0, 10)) for _ in range(r.choice([1, 2, 3])))
                 lx += ([ident(n)] if named else []) + [kw("AT"), lit("%" + loc + sz + addr), sym(":")]
-                size = sz.lower()
+                size = sz.lower() if sz else "nil"
                 name = low(n) if named else None
                 typ = r.choice(["BOOL", "INT", "DINT", "REAL"])
                 lx.append(kw(typ))
